@@ -293,3 +293,31 @@ def _native_setstate(fresh, state):
         fresh.__setstate__(state)
     finally:
         SINV.Invariant._populate_derived_attributes = orig
+
+
+# ------------------------------------------------------------------------------ reduced-form VARs
+@contract("C20", targets=["irispie.red_vars._variants:Variant.copy", "irispie.red_vars._variants:System.copy", "irispie.red_vars.main:RedVAR.copy"] if hasattr(ir.RedVAR, "copy") else
+          ["irispie.red_vars._variants:Variant.copy", "irispie.red_vars._variants:System.copy"], instances=[(True,), (False,)], cross=2, opts={"max_paths": 100})
+def redvar_copy_carries_the_estimates_in_its_own_memory(K, intercept):
+    """copy() of an estimated RedVAR - with or without an intercept - returns a model with equal system matrices held in
+    arrays of its own (a later re-estimation or assignment of one does not reach the other)."""
+    rng = np.random.default_rng(5)
+    span = ir.qq(2000, 1) >> ir.qq(2004, 4)
+    db = ir.Databox()
+    for n in ("a", "b"):
+        db[n] = ir.Series(periods=span, values=rng.normal(size=len(span)))
+    m = ir.RedVAR(("a", "b"), order=2, intercept=intercept)
+    m.estimate(db, span)
+    ml = K.lift(m)
+    c = K.method(ml, "copy")
+    K.ensure("a new model", c is not ml)
+    v0 = list(K.items(K.attr(ml, "_variants")))[0]
+    v1 = list(K.items(K.attr(c, "_variants")))[0]
+    s0, s1 = K.attr(v0, "system"), K.attr(v1, "system")
+    for nme in ("A", "B", "cov_residuals") + (("c",) if intercept else ()):
+        a0, a1 = K.attr(s0, nme), K.attr(s1, nme)
+        K.ensure(f"{nme}: equal values", np.allclose(np.asarray(K.concrete_array(a0)), np.asarray(K.concrete_array(a1))))
+        K.ensure(f"{nme}: own memory", not K.same_buffer(a0, a1))
+    if not intercept:
+        K.ensure("no intercept in the copy either", K.is_none(K.attr(s1, "c")))
+    K.ensure("fitted periods carried", len(tuple(K.items(K.attr(v1, "fitted_periods")))) == len(m._variants[0].fitted_periods))
